@@ -435,18 +435,21 @@ fn check_circuit(family: &'static str, index: u64, hc: &Circ) {
 
 const ADD_IMPLS: [&str; 5] = ["Circuit+Circuit", "Circuit+&Circuit", "&Circuit+Circuit", "&Circuit+&Circuit", "Circuit+=&Circuit"];
 
-fn apply_add(which: usize, a: &Circuit, b: &Circuit) -> (Circuit, Circuit, Circuit) {
+fn apply_add(which: usize, mk_a: &dyn Fn() -> Circuit, mk_b: &dyn Fn() -> Circuit) -> (Circuit, Circuit, Circuit) {
     // returns (result, left operand afterwards, right operand afterwards) -- for the
-    // borrowing impls the operands must be unchanged
-    let (l, r) = (a.clone(), b.clone());
+    // borrowing impls the operands must be unchanged. Operands that are MOVED into the
+    // operator are built afresh by `mk_*` (a clone would be a contiguous, exactly allocated
+    // deque whatever the original looked like; a freshly assembled circuit keeps its layout:
+    // wrapped ring buffer, spare capacity).
+    let (l, r) = (mk_a(), mk_b());
     match which {
-        0 => (l.clone() + r.clone(), l, r),
+        0 => (mk_a() + mk_b(), l, r),
         1 => {
-            let res = l.clone() + &r;
+            let res = mk_a() + &r;
             (res, l, r)
         }
         2 => {
-            let res = &l + r.clone();
+            let res = &l + mk_b();
             (res, l, r)
         }
         3 => {
@@ -454,7 +457,7 @@ fn apply_add(which: usize, a: &Circuit, b: &Circuit) -> (Circuit, Circuit, Circu
             (res, l, r)
         }
         _ => {
-            let mut t = l.clone();
+            let mut t = mk_a();
             t += &r;
             (t, l, r)
         }
@@ -468,6 +471,27 @@ fn check_concat(family: &'static str, index: u64, h1: &Circ, h2: &Circ) {
     let input = json!({"c1": circ_json(h1), "c2": circ_json(h2)});
     let exact = h1.is_pi4() && h2.is_pi4();
     let (q1, q2) = (to_quizx(h1), to_quizx(h2));
+    // how the operands handed to the operators are assembled (by case index): plain pushes,
+    // push + push_front (wrapped deque), and a right operand with room to spare
+    let lay = index % 4;
+    let split1 = if h1.gates.is_empty() { 0 } else { 1 + (index as usize / 4) % h1.gates.len() };
+    let split2 = if h2.gates.is_empty() { 0 } else { 1 + (index as usize / 4) % h2.gates.len() };
+    let mk_a = move || match lay {
+        1 | 3 => to_quizx_wrapped(h1, split1),
+        _ => to_quizx(h1),
+    };
+    let mk_b = move || {
+        let mut b = if lay == 2 { to_quizx_wrapped(h2, split2) } else { to_quizx(h2) };
+        if lay >= 2 {
+            b.gates.reserve(h1.gates.len() + 8);
+        }
+        b
+    };
+    if mk_a() != q1 || mk_b() != q2 {
+        c.inconclusive("oracle-error", json!({"msg": "operand construction variants differ from the plain construction"}));
+        return;
+    }
+    c.count(&format!("concat:operand-layout:{}", ["pushed", "left-wrapped", "right-wrapped-with-spare-capacity", "left-wrapped-right-with-spare-capacity"][lay as usize]), 1);
     let u1 = unitary(h1, exact);
     let u2 = unitary(h2, exact);
     // U(c1 + c2) = U(c2) * U(c1): first c1, then c2
@@ -477,7 +501,7 @@ fn check_concat(family: &'static str, index: u64, h1: &Circ, h2: &Circ) {
     let mut results: Vec<Circuit> = vec![];
     for (w, name) in ADD_IMPLS.iter().enumerate() {
         c.count(&format!("add:{name}"), 1);
-        match guarded(|| apply_add(w, &q1, &q2)) {
+        match guarded(|| apply_add(w, &mk_a, &mk_b)) {
             Err(e) => {
                 panic_violation(&format!("add:{name}"), &e, family, index, input.clone());
             }
@@ -531,7 +555,7 @@ fn check_mismatch(family: &'static str, h1: &Circ, h2: &Circ) {
     let c = ctx();
     let (q1, q2) = (to_quizx(h1), to_quizx(h2));
     for (w, name) in ADD_IMPLS.iter().enumerate() {
-        match guarded(|| apply_add(w, &q1, &q2)) {
+        match guarded(|| apply_add(w, &|| q1.clone(), &|| q2.clone())) {
             Err(Caught::Panic { msg, .. }) => {
                 if msg.contains("different numbers of qubits") {
                     c.count(&format!("mismatch:{name}:documented-panic"), 1);
@@ -749,11 +773,14 @@ pub fn run() {
         for g in hc.gates.iter_mut() {
             if let G::Rz(_, p) | G::Rx(_, p) | G::Pp(_, p) = g {
                 if r.chance(0.7) {
-                    let d = *r.pick(&[65_537i64, 65_536 * 3, 1_000_003, (1 << 31) - 1, (1 << 40) + 15, 1 << 50]);
-                    let k = match r.below(4) {
+                    let d = *r.pick(&[65_537i64, 65_536 * 3, 1_000_003, (1 << 31) - 1, (1 << 40) + 15, 1 << 50, 1 << 55, 1 << 60, (1 << 61) - 1]);
+                    let k = match r.below(6) {
                         0 => 1,
                         1 => d - 1,
                         2 => -(d - 1),
+                        // next to a multiple of 1/2 or 1/4: a Clifford / T phase up to the last bit
+                        3 => d / 2 + *r.pick(&[1i64, -1]),
+                        4 => *r.pick(&[1i64, -1, 3, -3]) * (d / 4) + *r.pick(&[1i64, -1]),
                         _ => r.range(-d + 1, d),
                     };
                     let q = quizx::phase::Phase::new(num::rational::Rational64::new(k, d)).to_rational();
